@@ -163,6 +163,11 @@ def run(tier):
     if bad:
         raise Inconclusive('encoding disagrees with the native function: %r' % bad[:3])
 
+    # the verdict clauses of the whole pass (use_variable, the Assignment and Deref arms, what declarations record)
+    import mutcheck
+    MC = mutcheck.run(tier)
+    if MC.unconfirmed and not (MC.pending or pending):
+        raise Inconclusive('; '.join(MC.unconfirmed[:3]))
     known = known_keys(PROP)
     out_v = []
     for qname, text, line, got_ in pending:
@@ -174,25 +179,43 @@ def run(tier):
         rp = write_replay(PROP, key, {'property': PROP, 'query': qname, 'statement': text, 'steps': line, 'native': got_,
                                       'how': 'echo "%s" | pv_replay mut-eval' % line})
         out_v.append((what, rp))
+    for qname, text, line, got_ in MC.pending:
+        key = '%s:%s' % (qname, line)
+        what = '%s fails for [%s]: the mutability pass answers %s (%s)' % (qname, line, got_, text)
+        if key in known:
+            log('KNOWN-FINDING: property=%s %s' % (PROP, what))
+            continue
+        rp = write_replay(PROP, key, {'property': PROP, 'query': qname, 'statement': text, 'request': line, 'native': got_,
+                                      'how': 'echo "%s" | pv_replay mutpass-eval' % line})
+        out_v.append((what, rp))
+    queries += MC.queries
+    solver_s += MC.solver_s
+    exec_s += MC.exec_s
     wall = time.time() - t0
     cov = {
-        'states': len(queries), 'transitions': max(1, int(ex.stats['loop_iterations'])), 'traces_validated_against_impl': len(lines),
+        'states': len(queries) + MC.blocks, 'transitions': max(1, int(ex.stats['loop_iterations'])), 'traces_validated_against_impl': len(lines) + MC.used,
         'samples': queries,
         'explanation': 'needs_outer_mutability symbolically executed from MIR over a Reference whose `steps` vector holds up to '
                        '%d symbolic ReferenceStep values (symbolic length); the loop is unrolled %d times with an unwinding '
-                       'obligation.' % (K, K + 2),
-        'functions_encoded': ['needs_outer_mutability'],
-        'bounds': {'max_steps': K, 'outside': 'references with more than %d steps' % K},
+                       'obligation.  Verdict clauses (mutcheck.py): Analyzer::use_variable, the Assignment arm of Statement::analyze and the '
+                       'Deref arm of Expression::analyze on a symbolic reference of up to %d steps, and the Declaration/Parameter/Member/'
+                       'Constant forms, each as one step from an arbitrary map of %d symbolic entries; analysis of sub-expressions is havoc '
+                       '(justified by the call-graph frame check).' % (K, K + 2, MC.K, MC.N),
+        'functions_encoded': sorted(set(['needs_outer_mutability'] + MC.functions)),
+        'bounds': {'max_steps': K, 'verdict_clause_steps': MC.K, 'map_entries': MC.N,
+                   'outside': 'references with more than %d steps; maps with more entries (the clauses are per-entry, so this is a model bound only)' % K},
+        'vacuity_witnesses_sat': len([q for q in queries if q.get('expected') == 'sat']),
         'queries_discharged': len(queries), 'queries_unsat': len([q for q in queries if q['result'] == 'unsat']),
         'solver_time_s': round(solver_s, 3), 'symbolic_execution_s': round(exec_s, 3), 'mir_dump_s': round(dump_s, 2),
         'std_models_used': {k: int(v) for k, v in ex.used_models.items()},
-        'outside_claim': ['use_variable and the per-declaration mutability bit (HashMap state)', 'E531-E533 and E513 (function_calls.rs)',
-                          'the run-time non-interference consequence'],
+        'outside_claim': ['how the arms compose over whole function bodies (each arm is decided on its own, children havoc)',
+                          'E531-E533 and E513 (function_calls.rs)', 'the run-time non-interference consequence'],
     }
     write_evidence(PROP, tier, 'model_checking', cov, wall,
                    ['rustc nightly MIR dump', 'mirsym and its models (Vec as fixed slots with symbolic length, slice iterator)',
                     'native validation through the guarded hook analyzer::verif_mutability_hooks'], violations=len(out_v))
-    log('%s: K=%d, %d queries (%d unsat), %d native comparisons, wall %.1fs' % (PROP, K, len(queries), cov['queries_unsat'], len(lines), wall))
+    log('%s: K=%d, %d queries (%d unsat, %d witnesses sat as required), %d native comparisons, wall %.1fs'
+        % (PROP, K, len(queries), cov['queries_unsat'], cov['vacuity_witnesses_sat'], len(lines) + MC.used, wall))
     for what, rp in out_v:
         log('VIOLATION property=%s replay=%s' % (PROP, rp))
         log('  ' + what)
@@ -202,6 +225,14 @@ def run(tier):
 def replay_file(path):
     import json
     r = json.load(open(path))
+    if 'request' in r:
+        import mutcheck
+        got = mutcheck.native([r['request']])[0]
+        log('native mutability pass [%s] -> %s (recorded %s)' % (r['request'], got, r['native']))
+        if got == r['native']:
+            log('VIOLATION property=%s replay=%s' % (PROP, path))
+            return 1
+        return 0
     got = native([r['steps']])[0]
     log('native needs_outer_mutability([%s]) = %s (recorded %s)' % (r['steps'], got, r['native']))
     if got == r['native']:
